@@ -20,14 +20,23 @@ pub fn components_table() -> serde_json::Value {
             "beff-core: swc parse, bind_exports/bind_locals, frontend, subtyping, printer, diagnostics (from /repo working tree)",
             "beff-wasm: BUNDLER cache, LazyFileManager, WasmModuleResolver, update_file_content_inner, bundle_to_string_inner, bundle_to_diagnostics_inner, parse_entrypoints (native build, feature beff_verif)"
         ],
+        "characterised_by_experiment": {
+            "what": "packages/beff-wasm/ts-node/bundler.ts of the working tree is type-stripped and run under Node with the committed tsc-slim resolver (stand-ins for the wasm package, chalk, code-frame); js/hostprobe.mjs asks it whether resolve_import keeps positive / negative answers from one build to the next and whether a kept answer survives the deletion of its file; SimHost mirrors what was seen. The resolver model is compared with the real resolveModuleName on 400 seeded file layouts",
+            "host_model": host_model_json()
+        },
         "stub": [
-            "bundler.ts host functions + commandeer.ts watch loop + chokidar + tsc-slim resolveModuleName -> SimHost / deliver(f) / resolve_in (written from the sources)",
+            "bundler.ts host functions + commandeer.ts watch loop + chokidar + tsc-slim resolveModuleName -> SimHost / deliver(f) / resolve_in (written from the sources, cache lifetime and resolver answers checked against the real code by js/hostprobe.mjs)",
             "bundle-to-disk.ts finalizeParserV2File -> string concatenation re-stated in tools.rs (self-tested against committed e2e outputs)"
         ],
         "not_run": ["wasm-bindgen export wrappers, JsValue marshalling, init()"],
         "simulated": ["OS randomness (getrandom) for std HashMap keys", "file system", "change notifications", "host read/resolve faults"],
         "os_threads": "real, used as containers for simulated processes; exactly one runnable at a time"
     })
+}
+
+fn host_model_json() -> serde_json::Value {
+    let p = format!("{}/out/host_model.json", coord::home());
+    std::fs::read_to_string(p).ok().and_then(|s| serde_json::from_str(&s).ok()).unwrap_or(serde_json::json!({"characterised": false}))
 }
 
 fn arg_after(args: &[String], flag: &str) -> Option<String> {
@@ -89,6 +98,31 @@ fn main() {
             // sim synthetic <seed> : print a synthetic project (debugging aid)
             let p = gen::synthetic_project(args[2].parse().unwrap());
             println!("{}", serde_json::to_string_pretty(&p).unwrap());
+            0
+        }
+        "resolver-cases" => {
+            // seeded file layouts + specifiers with the resolver model's answer, for the host probe
+            // to compare with the real TypeScript resolver (js/hostprobe.mjs)
+            let mut rng = rng::Rng::new(0x5E50_1BE5);
+            let vocab = ["x.ts", "x.tsx", "x.d.ts", "x/index.ts", "x/index.d.ts", "x/index.tsx", "x/inner.ts", "y.ts", "sub/x.ts", "sub/y/index.ts", "node_modules/pkg/index.ts", "node_modules/pkg/index.d.ts", "node_modules/pkg/inner.ts", "node_modules/pkg.ts", "sub/node_modules/pkg/index.ts", "X.ts"];
+            let specs = ["./x", "./x.js", "./x/", "./x/index", "./x/inner", "../x", "./y", "pkg", "pkg/inner", "./x.ts", "./x.tsx", "./x.d.ts", ".", "..", "./X", "./sub/x", "./sub/y", "./missing"];
+            let mut cases = vec![];
+            for _ in 0..400 {
+                let mut files: Vec<String> = vocab.iter().filter(|_| rng.chance(1, 3)).map(|s| s.to_string()).collect();
+                let importer = if rng.chance(1, 3) { "sub/e.ts" } else { "entry.ts" };
+                files.push(importer.to_string());
+                files.sort();
+                files.dedup();
+                let fs: host::Fs = files.iter().map(|f| (format!("/{}", f), String::new())).collect();
+                let mut spec = *rng.pick(&specs);
+                if importer == "entry.ts" && (spec == "../x" || spec == "..") {
+                    // would leave the scratch root
+                    spec = "./x";
+                }
+                let model = host::resolve_in(&fs, &format!("/{}", importer), spec);
+                cases.push(serde_json::json!({"files": files, "importer": importer, "spec": spec, "model": model}));
+            }
+            println!("{}", serde_json::to_string(&cases).unwrap());
             0
         }
         "strip" => strip::strip_file(&args[2], &args[3]),
